@@ -87,6 +87,9 @@ def rhs_origin(fn, rhs, depth, seen):
             a0 = M._split_top(args)[0] if args else ""
             tag = "try" if "Try>::branch" in callee else "deref" if "eref" in callee else "asref"
             return "%s(%s)" % (tag, origin(fn, a0, depth + 1, seen))
+        if c.startswith("anyhow::__private::not::"):
+            a0 = M._split_top(args)[0] if args else ""
+            return "ensure_not(%s)" % origin(fn, a0, depth + 1, seen)
         return "call %s" % c
     m = re.match(r"^discriminant\((.*)\)$", rhs)
     if m:
